@@ -184,7 +184,18 @@ impl Honest {
         }
         // the server opens streams too (towards client 0's limits)
         let srv_opens = r.chance(50);
-        let mut srv_app = gen_app(&mut r, k, &cli_t[0], &srv_t, srv_opens);
+        // the server's plans must be feasible against every client: use the weakest limits
+        let mut weakest = cli_t[0].clone();
+        for t in &cli_t[1..] {
+            weakest.stream_rwnd = weakest.stream_rwnd.min(t.stream_rwnd);
+            weakest.rwnd = weakest.rwnd.min(t.rwnd);
+            weakest.max_bidi = weakest.max_bidi.min(t.max_bidi);
+            weakest.max_uni = weakest.max_uni.min(t.max_uni);
+            if t.dgram_recv_buf.is_none() {
+                weakest.dgram_recv_buf = None;
+            }
+        }
+        let mut srv_app = gen_app(&mut r, k, &weakest, &srv_t, srv_opens);
         if k.n_clients > 1 {
             // plans must be valid against every client's limits
             let min_bidi = cli_t.iter().map(|t| t.max_bidi).min().unwrap();
@@ -223,6 +234,14 @@ impl Honest {
             *r.pick(&[0, 4, 8, 20]),
         ];
         let cid_lifetime_ms = if r.chance(25) { Some(*r.pick(&[50, 500, 5000])) } else { None };
+        if cid_len[0] == 0 {
+            // a server with zero-length CIDs routes by address: its clients cannot migrate
+            for (_, op) in &mut ops {
+                if let Op::Rebind { ep, .. } = op {
+                    *op = Op::Ping { ep: *ep };
+                }
+            }
+        }
         Self {
             seed,
             lane: k.lane,
